@@ -505,7 +505,7 @@ fn relation_stream(rng: &mut Rng, thorough: bool, out: &mut Vec<String>) {
     }
     // (c) random relation, random lanes (adjacent or not; power lanes, lookup lanes or across), several relations per state,
     //     through every entry point, also at the input of a later round
-    let n = if thorough { 40_000 } else { 165 };
+    let n = if thorough { 20_000 } else { 165 };
     for t in 0..n {
         let mut s = relation_base(rng);
         let which = [0u64, 0, 1, 2, 3, 4][t % 6];
